@@ -6,15 +6,15 @@ HERE = os.path.dirname(os.path.dirname(os.path.abspath(__file__)))
 TECH = "contract-based deductive verification of the real code: "
 
 CLAIMS = {
- "C01": ("Verus V-DESER/V-DERIVE (readers, cursors, generic sums, ranges, derive samples, deep-sequence loops and the zero-copy sequence reader skeleton proved against a format grammar for all payload types, offsets and lengths) + Kani round-trip lemmas per instantiation (complete for fixed-size types with a symbolic start offset, bounded for sequences)",
-         "5 C01", "Verus: assumed contracts of primitive impls and unsafe helpers (checked by Kani for listed types); Kani: enumerated instantiations, sequence bounds stated per harness; serializer half only via Kani (Verus rejects the cyclic Serialize traits)"),
+ "C01": ("Verus V-SER/V-DSER (serializers write exactly the encoding function; round-trip lemmas parse(enc(v)++rest)=v by induction over trait instances and sequence length) + Verus V-DESER/V-DERIVE (readers, cursors, generic sums, ranges, derive samples, deep-sequence loops and the zero-copy sequence reader skeleton proved against a format grammar for all payload types, offsets and lengths) + Kani round-trip lemmas per instantiation (complete for fixed-size types with a symbolic start offset, bounded for sequences)",
+         "5 C01", "Verus: assumed contracts of primitive impls and unsafe helpers (checked by Kani for listed types); Kani: enumerated instantiations, sequence bounds stated per harness; the SerializeInner/WriteWithNames trait cycle is cut mechanically for Verus (WriteWithNames::write extracted as a free function), writers overriding write are Kani-only; to_ne_bytes/from_ne_bytes inverse is an axiom in Verus, checked by Kani"),
  "C02": ("Verus V-DESER eps contracts against the same grammar as full copy (agreement is by construction of the shared parse) + Kani eps round-trip lemmas on placed buffers",
          "5 C02", "start offsets of Kani eps lemmas are concrete (listed per harness); all-offset padding carried by V-PAD/V-WRITE/V-DESER align contracts"),
  "C03": ("Kani lemmas on the real unsafe carvers: address, length, bounds, alignment, non-null of every borrowed part against the reference block list",
          "5 C03", "allocation-count half of the statement is not decided (no contract speaks about the allocator); element types and lengths enumerated/bounded"),
  "C04": ("Verus V-TYPEINFO: every TypeHash/AlignHash implementation (built-in, incl. compiler-expanded macro impls) feeds exactly the published recipe, for all type parameters; constructor feeds pairwise distinct and injective (lemmas) + Kani closed-term digests over the near-miss universe and cross-type header rejection",
          "5 C04", "xxh3 assumed collision-free on feeds; str/usize hash encodings assumed injective and prefix-free (std); the program quantifier is an enumerated universe (nm.rs); derive output is checked by Kani digests, not by Verus"),
- "C05": ("Kani lemmas per enumerated derive sample: round trips in both modes (via C01/C02 lemmas), units, tag tables, and the substitution rule as TypeId equalities",
+ "C05": ("Verus V-DERIVE/V-DSER (rustc-expanded derive output of four sample definitions, both halves, generic in their parameters, with round-trip lemmas) + rustc type-checks the derive output of every sample definition + Kani lemmas per enumerated derive sample: round trips in both modes (via C01/C02 lemmas), units, tag tables, and the substitution rule as TypeId equalities",
          "5 C05", "the quantifier over all programs is not covered: enumerated definitions only (types.rs, nm.rs); the proc-macro itself is outside both verifiers"),
  "C06": ("Kani lemmas: emitted bytes equal an independent reference encoder of format 1.1 (payload for every instantiation of C01, header incl. digests recomputed from the recipe) + Verus V-TYPEINFO (hash recipes) and V-DESER (readers accept exactly the grammar)",
          "5 C06", "the reference encoder, the grammar and the recipes are fixed text in /verif and play the role of the corpus; no stored files; 64-bit little-endian target"),
@@ -26,7 +26,7 @@ CLAIMS = {
          "5 C11", "file-backed entry points (load_full, mmap) not reachable; eps bounds-check panics whitelisted by description as the statement allows"),
  "C12": ("Kani placement lemmas: Ok iff every reference block lands on a multiple of its unit, over symbolic base residues; V-DESER SliceWithPos::align contract",
          "5 C12", "residues 0..15 (0..127 for one type in thorough); pointer-to-address relation not modelled in Verus"),
- "C13": ("Verus V-WRITE (error propagation and prefix property of write_all/align for every backend) + Kani failing-sink lemmas with symbolic failure position, partial chunk, flush failure, short/interrupted writers",
+ "C13": ("Verus V-WRITE (error propagation and prefix property of write_all/align for every backend), V-SER/V-DSER (on Err the sink holds a prefix of the encoding: trait-level contract of _serialize_inner, deep-sequence loop, zero-copy sequence helper) + Kani failing-sink lemmas with symbolic failure position, partial chunk, flush failure, short/interrupted writers",
          "5 C13", "buffered-file and /dev/full sinks not reachable; sequence lengths bounded"),
  "C14": ("Kani fragmenting/failing reader lemmas over io::Read (symbolic chunk plan and failure position) + V-DESER reader contracts (position advances only on success)",
          "5 C14", "chunk plans of 3 symbolic entries then 1 byte per call; stream lengths bounded"),
@@ -43,7 +43,7 @@ CLAIMS = {
 }
 
 TECHNIQUE = {
- "C01": "Verus contracts (trait-level DeserializeInner contract against a grammar; loop invariants of the deep-sequence helpers; control skeleton of the unsafe zero-copy sequence reader) + Kani round-trip lemma harnesses on the unmodified crate",
+ "C01": "Verus contracts (trait-level SerializeInner contract against an encoding function, trait-level DeserializeInner contract against a grammar, round-trip lemmas joining the two; loop invariants of the deep-sequence helpers; control skeleton of the unsafe zero-copy sequence reader) + Kani round-trip lemma harnesses on the unmodified crate",
  "C02": "Verus contracts (eps-copy contract against the same grammar as full copy) + Kani eps round-trip lemma harnesses on placed buffers",
  "C03": "Kani lemma harnesses on the unsafe carvers (addresses vs. reference block list) + Verus contract of the eps sequence carver (cursor advances over exactly the written bytes)",
  "C04": "Verus contracts on every built-in TypeHash/AlignHash implementation (hash feed equals the published recipe; injectivity lemmas) + Kani closed-term digest lemmas over a near-miss universe",
@@ -53,7 +53,7 @@ TECHNIQUE = {
  "C10": "Kani lemma harness, complete: all 29 fixed header bytes symbolic against the decision table, on the real check_header",
  "C11": "Verus contracts (Short => ReadError) and the trait-level prefix lemma proved per implementation and by induction for sequences + Kani cut lemma harnesses",
  "C12": "Kani placement lemma harnesses over symbolic base residues on the real address check",
- "C13": "Verus contracts on the position-tracking writer and the padding loop (error propagation, prefix property) + Kani failing/short writer lemma harnesses incl. the real entry points",
+ "C13": "Verus contracts on the position-tracking writer, the padding loop and every serializer under contract (error propagation, prefix-of-the-encoding on failure) + Kani failing/short writer lemma harnesses incl. the real entry points",
  "C14": "Kani lemma harnesses over fragmenting and failing io::Read / ReadNoStd sources (incl. destructor-tracking elements) + Verus reader contracts",
  "C15": "Verus contracts (tag i <-> variant i, InvalidTag(tag) otherwise; all payload types) + Kani tag-table lemma harnesses",
  "C16": "Kani lemma harnesses: byte equality of slice / iterator / vector serializations, lying iterators; Verus/Kani hash equality",
